@@ -70,6 +70,12 @@ template <class T> static std::vector<T> int_alphabet() {
         (T)3037000499ll, (T)3037000500ll, (T)0xfffe0001ll, (T)0x100000001ll}; v.insert(v.end(), big, big + 12); }
     return v;
 }
+template <class R> struct alphabet<std::complex<R>> {   // integer-valued parts: + - * are exact
+    using Z = std::complex<R>;
+    static std::vector<Z> get() { std::vector<Z> v; const int re[] = {0, 1, -1, 2, -3, 5, 7, -4, 12, 100}; const int im[] = {0, 1, -2, 3, 0, -5, 4, -1, 9, -64};
+        for (int i = 0; i < 10; ++i) for (int k = 0; k < 10; k += 3) v.push_back(Z((R)re[i], (R)im[(k + i) % 10])); return v; }
+    static std::vector<Z> scalars() { return {Z(2, 0), Z(-1, 2), Z(0, -3)}; }
+};
 template <> struct alphabet<int> { static std::vector<int> get() { return int_alphabet<int>(); } static std::vector<int> scalars() { return {2, -3, 7}; } };
 template <> struct alphabet<int64_t> { static std::vector<int64_t> get() { return int_alphabet<int64_t>(); } static std::vector<int64_t> scalars() { return {2, -3, 7}; } };
 
